@@ -103,6 +103,11 @@ def consistency(rep, res, entry, rule="R-TYPESTATE"):
     n = 0
     for ev in res.events("cap_call"):
         f, s, d = ev.d["ids"]
+        if ev.d["domain"] is None and f is not None and s is not None:
+            rep.violated(rule, "integrand and domain live on one domain", where=ev.loc, construct=ev.text(), entry=entry, config=res.config,
+                         msg="the integration is called without a domain: the arrays are integrated with the default unit step instead "
+                             "of the domain they live on")
+            continue
         if None in (f, s, d):
             rep.undecided(rule, "integrand and domain live on one domain", where=ev.loc, construct=ev.text(), entry=entry,
                           config=res.config)
